@@ -446,8 +446,8 @@ func runProperty(eng *Engine, verifDir, prop, tier string, updateLedger, verbose
 	os.MkdirAll(filepath.Join(verifDir, "evidence"), 0o755)
 	eb, _ := json.MarshalIndent(ev, "", " ")
 	os.WriteFile(filepath.Join(verifDir, "evidence", prop+".json"), append(eb, '\n'), 0o644)
-	fmt.Printf("property %s: %d obligations, %d discharged, %d undecided, %d known findings, %d violations, %.1fs\n",
-		prop, total, discharged, len(undecided), len(knownLines), violations, time.Since(t0).Seconds())
+	fmt.Printf("property %s: %d obligations, %d discharged, %d undecided, %d known findings, %d known under another property, %d new unconfirmed, %d violations, %.1fs\n",
+		prop, total, discharged, len(undecided), len(knownLines), len(otherKnownNames), len(newFailed), violations, time.Since(t0).Seconds())
 	if total == 0 {
 		fmt.Println("ENGINE-FAULT zero obligations generated (vacuous check)")
 		return 2
